@@ -15,13 +15,17 @@ def c01 (j : Json) : Except String Json := do
   | .error e => pure (Json.mkObj [("outcome", e)])
   | .ok p =>
     let out := p.eval db
-    let qe : Query := { q with dims := applyDefaultTimeDims m q.metrics q.dims }
-    let specBody := Spec.body m qe rows
+    let cols := Spec.columns m q
+    let specBody := Spec.body m q (m.source.rows db)
+    let covered := match p.ctes with
+      | [c] => p.fusable c && decide (p.fuse c = Spec.flat m q)
+      | _ => false
     pure (Json.mkObj [
       ("outcome", "ok"), ("sql", p.toSql), ("columns", jstrs p.columns),
       ("rows", rowsJson p.columns out),
       ("body", rowsJson p.columns (p.body db)),
-      ("spec_body", Json.arr (specBody.map fun r => Json.arr (r.map valJson).toArray).toArray),
-      ("spec_columns", jstrs (Spec.outNames m qe))])
+      ("spec_body", rowsJson cols specBody),
+      ("spec_columns", jstrs cols),
+      ("covered", covered)])
 
 end SideVerif.Drive
